@@ -215,6 +215,8 @@ def discobrackets(tree, stream, **params):
     separated from the tree by a tab (terminal space-separated).
     """
     terminals = trees.terminals(tree)
+    for terminal in terminals:
+        trees.replace_chars(terminal, trees.BRACKETS)
     sentence = ' '.join([terminal.data['word'] for terminal in terminals])
     for terminal in terminals:
         terminal.data['word'] = str(terminal.data['num'])
